@@ -303,7 +303,9 @@ def _large_cases(tier):
     import os
 
     seed = int(os.environ.get("VERIF_SEED", "1") or "1")
-    for n in ([2**17 + 3001] if tier == "quick" else [2**17 + 3001, 2**18 + 17, 65537]):
+    from ..strategies import harvested_edge_sizes
+
+    for n in sorted(set([2**17 + 3001] if tier == "quick" else [2**17 + 3001, 2**18 + 17, 65537]) | set(harvested_edge_sizes(["simulation/eas_radio/radio.py", "simulation/eas_radio/radio_antenna.py"], cap=2**19 + 1, lo=4000))):
         yield {"n": n, "seed": seed, "c": 0.1 + 0.07 * (seed % 11), "det": 525.0, "band": [30, 80], "nants": 10, "gain": 1.8, "iono": False, "tec": 10.0, "tec_err": 0.1}
 
 
